@@ -1072,12 +1072,50 @@ func runXF3(c *load.Ctx, r *report.RuleResult) {
 				}
 				n++
 				key := fmt.Sprintf("libreturn|%s#%d", load.FuncKey(fn), n)
+				// the same fact keyed by who returns which code: a site that moved into another method of the
+				// same type (an extracted helper) is the reviewed site
+				alt := ""
+				codeConst := func(v ssa.Value) *ssa.Const {
+					if k, ok := v.(*ssa.Const); ok && k.Value != nil {
+						return k
+					}
+					if call, ok := v.(*ssa.Call); ok && len(call.Call.Args) >= 1 {
+						if sc := call.Call.StaticCallee(); sc != nil && sc.Name() == "Format" && load.FuncPkgRel(sc) == "errors" {
+							if k, ok := call.Call.Args[0].(*ssa.Const); ok && k.Value != nil {
+								return k
+							}
+						}
+					}
+					return nil
+				}
+				if k := codeConst(mi.X); k != nil {
+					owner := fn
+					for owner.Parent() != nil {
+						owner = owner.Parent()
+					}
+					recv := "-"
+					if rv := owner.Signature.Recv(); rv != nil {
+						t := rv.Type()
+						if pt, ok := t.(*types.Pointer); ok {
+							t = pt.Elem()
+						}
+						if nt, ok := t.(*types.Named); ok {
+							recv = nt.Obj().Name()
+						}
+					}
+					alt = fmt.Sprintf("%s.(%s)|code %s", load.FuncPkgRel(fn), recv, k.Value.ExactString())
+				}
+				if os.Getenv("JSV_DEBUG_RT") != "" {
+					fmt.Fprintln(os.Stderr, "LIBRET\t"+key+"\t"+alt)
+				}
 				_, reachable := apiReach[fn]
 				switch {
 				case !reachable:
 					r.OK(key, c.Pos(mi.Pos()), "not reachable from a public function")
 				case xfLibReturnReviewed[key] != "":
 					r.OK(key, c.Pos(mi.Pos()), "reviewed: "+xfLibReturnReviewed[key])
+				case alt != "" && xfLibReturnReviewedByCode[alt] != "":
+					r.OK(key, c.Pos(mi.Pos()), "reviewed (the site moved within its type): "+xfLibReturnReviewedByCode[alt])
 				default:
 					r.Bad(key, c.Pos(mi.Pos()), "returns a bare library error code (no file, no position) as an error value on a path reachable from the public API")
 				}
@@ -1222,4 +1260,17 @@ func onceFieldName(v ssa.Value) string {
 		return fieldName(fa.X.Type(), fa.Field)
 	}
 	return "?"
+}
+
+// xfLibReturnReviewedByCode is filled below from the reviewed sites of the tree the table was written
+// for: receiver type and error code of each reviewed site.
+var xfLibReturnReviewedByCode = map[string]string{
+	"notations/jschema.(exampleBuilder)|code 801":                  "ErrLoader for a shortcut node without type names: the loader always records at least one",
+	"notations/jschema.(exampleBuilder)|code 1302":                 "unknown type: excluded by the link check that Example's compile performs first",
+	"notations/jschema.(exampleBuilder)|code 102":                  "unknown key-shortcut type: Example compiles (and so link-checks) the schema first, so the type exists",
+	"notations/jschema/internal/checker.(checkSchema)|code 1117":   "the enclosing function panics the value and checkNode's CatchLexEventError handler positions it",
+	"notations/jschema/internal/checker.(recursionChecker)|code 1": "ErrImpossible for a node type that does not exist",
+	"notations/jschema/internal/loader.(schemaCompiler)|code 1117": "compileNode panics it under its handler",
+	"notations/jschema/internal/loader.(schemaCompiler)|code 618":  "positioned by compileNode's handler",
+	"notations/jschema/internal/loader.(schemaCompiler)|code 617":  "positioned by compileNode's handler",
 }
